@@ -186,6 +186,8 @@ type explorer struct {
 	tagCount  map[string]int
 	obs       []obsRec
 
+	local *localMode
+
 	mapOrderOn    bool
 	mapOrderMax   int
 	adversMapPkgs map[string]bool
@@ -207,6 +209,7 @@ func (ex *explorer) resetPath(it *workItem) {
 	ex.draws = ex.draws[:0]
 	ex.tagCount = map[string]int{}
 	ex.obs = ex.obs[:0]
+	ex.local = nil
 	ex.mapOrderOn = false
 	ex.mapOrderMax = 3
 	ex.adversMapPkgs = nil
@@ -233,6 +236,14 @@ func (ex *explorer) freshTag(tag string) string {
 
 func (ex *explorer) addPC(t *smt.Term) {
 	if t.IsConst() {
+		return
+	}
+	if t.Op == smt.OpAnd {
+		ex.addPC(t.Args[0])
+		ex.addPC(t.Args[1])
+		return
+	}
+	if _, ok := ex.decided[t]; ok {
 		return
 	}
 	ex.pc = append(ex.pc, t)
@@ -281,6 +292,9 @@ func (ex *explorer) check(extra *smt.Term) (smt.Result, map[*smt.Term]uint64) {
 func (ex *explorer) branch(cond *smt.Term) bool {
 	if cond.IsConst() {
 		return cond.Val == 1
+	}
+	if ex.local != nil {
+		return ex.localBranch(cond)
 	}
 	if v, ok := ex.decided[cond]; ok {
 		return v
@@ -334,6 +348,9 @@ func (ex *explorer) choice(tag string, k int) int {
 	if k <= 1 {
 		return 0
 	}
+	if ex.local != nil {
+		panic(localFail{"choice in pure call"})
+	}
 	if ex.pos < len(ex.prefix) {
 		d := ex.prefix[ex.pos]
 		ex.pos++
@@ -357,6 +374,9 @@ func (ex *explorer) concretize(t *smt.Term) uint64 {
 		return t.Val
 	}
 	c := ex.ctx
+	if ex.local != nil {
+		panic(localFail{"concretization in pure call"})
+	}
 	var excl []uint64
 	if ex.pos < len(ex.prefix) {
 		d := ex.prefix[ex.pos]
